@@ -151,7 +151,9 @@ def g_filter(rng, need_rank=False, dtypes=None):
     kw = {"mode": rng.choice(MODES[:5] if need_rank else MODES)}
     args = [a, bc]
     if need_rank:
-        args.append(rng.randrange(sum(1 for v in bc["vals"] if v)))
+        nnz = sum(1 for v in bc["vals"] if v)
+        # now and then a rank just outside the neighbourhood: the call must fail (or at least not depend on the heap)
+        args.append(rng.choice([nnz, nnz + 3, -1]) if rng.random() < 0.08 else rng.randrange(nnz))
     return args, kw
 
 
